@@ -218,7 +218,9 @@ impl Scenario {
             self.players
                 .iter()
                 .map(|p| {
-                    if p.entries.len() <= 4 {
+                    if p.entries.is_empty() {
+                        "<empty>".to_string()
+                    } else if p.entries.len() <= 4 {
                         p.entries
                             .iter()
                             .map(|(a, b, w)| {
